@@ -4,7 +4,7 @@ SplitOptimProblem.__init__ concatenates the intervals' map_nodal_restr).
 
 Harness: two interval problems (Python list: the loop is unrolled -- the number of intervals is a bound of this harness); each interval's
 optimize() is the callee contract of OptimProblem.optimize (Results with value, x of the interval's length, duals per row class or None).
-Intervals that are not solved (a status string instead of Results) are outside this contract (candidate finding D20)."""
+An interval that is not solved (a status string instead of Results) makes the run report that status (case second_fails; fix D20)."""
 import z3
 
 from pyvc import sym, spec as S
@@ -19,7 +19,7 @@ class SplitOptimize(Contract):
     properties = ('C14', 'C03', 'C18')
 
     def cases(self):
-        return [dict(duals='both'), dict(duals='none'), dict(duals='second_mip')]
+        return [dict(duals='both'), dict(duals='none'), dict(duals='second_mip'), dict(duals='second_fails')]
 
     def harness(self, H, case):
         ops, results = [], []
@@ -32,11 +32,14 @@ class SplitOptimize(Contract):
             else:
                 d = {'N': H.real_arr(f'dualN{k}', nN), 'bound_u': H.real_arr(f'dualU{k}', n), 'S': None}
             r = Obj('Results', value=H.real(f'value{k}'), x=x, duals=d)
+            if case['duals'] == 'second_fails' and k == 1:
+                r = 'not successful'          # the interval is not solved: its optimize() returns a status string
             op = Obj('OptimProblem', __result__=r)
             ops.append(op)
             results.append(r)
         self_obj = Obj('SplitOptimProblem', ops=ops)
-        return dict(self_obj=self_obj, ops=ops, results=results, args=[], snapshot=[(r.get('value'), r.get('x'), r.get('duals') and dict(r.get('duals'))) for r in results])
+        return dict(self_obj=self_obj, ops=ops, results=results, args=[],
+                    snapshot=[(r.get('value'), r.get('x'), r.get('duals') and dict(r.get('duals'))) if isinstance(r, Obj) else None for r in results])
 
     def callees(self, case, ctx=None):
         def opt(I, self_obj, args, kwargs):
@@ -55,6 +58,10 @@ class SplitOptimize(Contract):
             return
         res = outcome[1]
         snap = ctx['snapshot']
+        if case['duals'] == 'second_fails':
+            # C03 / C14: an interval that is not solved makes the split run report that status (no partial result)
+            yield ('C14.split_optimize.failure_of_an_interval_is_reported', res == 'not successful')
+            return
         yield ('C14.split_optimize.every_interval_solved_once_in_order', ctx.get('calls') == ctx['ops'])
         ok = isinstance(res, Obj) and res.cls == 'Results' and isinstance(res.get('x'), Arr)
         yield ('C14.split_optimize.returns_results', ok)
